@@ -171,6 +171,11 @@ def _gen_recv(rng, tier):
             ops.append(['recv', _gen_size(rng, len(stream))])
         else:
             ops.append(['recv_close', rng.choice(['unset', None, 0, 1, 3, 10, len(stream), max(0, len(stream) - 1)])])
+    recv_errors = []
+    if rng.random() < 0.15:
+        import errno as _e
+        for _ in range(rng.randint(1, 3)):
+            recv_errors.append([rng.randint(1, 12), rng.choice([_e.ECONNRESET, _e.EINTR, _e.ENOBUFS])])
     if tick == 0.0 and rng.random() < 0.35:
         # per-call timeout overrides and changes of the defaults in mid-stream
         tchoices = [None, 0, 0.5, 5.0]
@@ -187,7 +192,8 @@ def _gen_recv(rng, tier):
         ops = ops2
     return {'mode': 'recv', 'stream': stream.hex(), 'deliveries': deliveries,
             'close_gap': _gen_gap(rng, timeout, rng.random()), 'recv_split': _gen_split(rng, len(stream)),
-            'timeout': timeout, 'maxsize': maxsize, 'recvsize': recvsize, 'tick': tick, 'ops': ops}
+            'timeout': timeout, 'maxsize': maxsize, 'recvsize': recvsize, 'tick': tick, 'ops': ops,
+            'recv_errors': recv_errors}
 
 
 def _gen_size(rng, n):
@@ -222,8 +228,13 @@ def _gen_send(rng, tier):
     tick = 0.0
     if timeout and rng.random() < 0.3:
         tick = timeout / rng.choice([400.0, 50.0, 8.0])
+    send_errors = []
+    if rng.random() < 0.15:
+        import errno as _e
+        for _ in range(rng.randint(1, 3)):
+            send_errors.append([rng.randint(1, 10), rng.choice([_e.ECONNRESET, _e.EINTR, _e.ENOBUFS])])
     return {'mode': 'send', 'timeout': timeout, 'sndbuf': sndbuf, 'drains': drains,
-            'send_split': _gen_split(rng), 'tick': tick, 'ops': ops}
+            'send_split': _gen_split(rng), 'tick': tick, 'ops': ops, 'send_errors': send_errors}
 
 
 def _gen_ns(rng, tier):
@@ -392,7 +403,8 @@ def _run_recv(case):
     retry_cap = 40 + 3 * len(stream) + 8 * len(case['deliveries']) + int(total_gap / 0.25)
     sock = SimSocket(clock, log, stream=stream, inbound=case['deliveries'],
                      close_gap=case['close_gap'], recv_split=case['recv_split'],
-                     call_cap=4 * (len(stream) + 1) + 4 * (len(case['ops']) + 1) * retry_cap)
+                     recv_errors=case.get('recv_errors', ()),
+                     call_cap=20 * len(case.get('recv_errors', ())) + 4 * (len(stream) + 1) + 4 * (len(case['ops']) + 1) * retry_cap)
     _install_clock(clock)
     kw = {'timeout': case['timeout'], 'maxsize': case['maxsize']}
     if case['recvsize'] is not None:
@@ -474,6 +486,18 @@ def _run_recv(case):
             except StepCapExceeded:
                 out.fail('no-progress', i, 'op %r made more recv() calls than any correct run needs' % (op,), op=op[0])
                 break
+            except OSError as e:
+                if 'simulated transient socket error' in str(e):
+                    # a transient socket error (ECONNRESET-like, one shot): nothing may be lost, the retry goes on
+                    out.fault('transient_recv_error')
+                    if bs.getrecvbuffer():
+                        classes.add('socket_error_with_partial_data')
+                        out.probe('socket_error_with_partial_data')
+                    if conserve('OSError', i):
+                        break
+                    continue
+                exc = e
+                val = None
             except Exception as e:
                 exc = e
                 val = None
@@ -537,7 +561,8 @@ def _run_send(case):
     clock = SimClock(log, case.get('tick', 0.0))
     total = sum(len(op[1]) // 2 for op in case['ops'] if len(op) > 1)
     sock = SimSocket(clock, log, sndbuf=case['sndbuf'], drains=case['drains'],
-                     send_split=case['send_split'], call_cap=4 * (total + 10) + 20 * len(case['ops']))
+                     send_split=case['send_split'], send_errors=case.get('send_errors', ()),
+                     call_cap=4 * (total + 10) + 20 * len(case['ops']) + 4 * len(case.get('send_errors', ())))
     _install_clock(clock)
     bs = su.BufferedSocket(sock, timeout=case['timeout'])
     handed = bytearray()
@@ -590,6 +615,16 @@ def _run_send(case):
         except StepCapExceeded:
             out.fail('no-progress', i, '%s made more send() calls than any correct run needs' % op[0], op=op[0])
             break
+        except OSError as e:
+            if 'simulated transient socket error' in str(e):
+                ok = False
+                out.fault('transient_send_error')
+                if bs.getsendbuffer():
+                    classes.add('socket_error_with_bytes_unsent')
+                    out.probe('socket_error_with_bytes_unsent')
+            else:
+                out.fail('unexpected-exception', i, '%r raised %r' % (op[0], e), op=op[0], exc=type(e).__name__)
+                break
         except Exception as e:
             out.fail('unexpected-exception', i, '%r raised %r' % (op[0], e), op=op[0], exc=type(e).__name__)
             break
@@ -609,6 +644,7 @@ def _run_send(case):
         sock.drains = []
         clock.tick = 0.0          # a slow caller is part of the fault environment
         n = len(case['ops'])
+        sock.send_errors.clear()
         for attempt in range(2):
             nsteps += 1
             try:
@@ -616,6 +652,11 @@ def _run_send(case):
                 break
             except (su.Timeout, BlockingIOError):
                 continue
+            except OSError as e:
+                if 'simulated transient socket error' in str(e):
+                    continue
+                out.fail('unexpected-exception', n, 'final flush raised %r' % (e,), op='final-flush', exc=type(e).__name__)
+                break
             except StepCapExceeded:
                 out.fail('no-progress', n, 'final flush made more send() calls than any correct run needs', op='final-flush')
                 break
@@ -797,6 +838,7 @@ def shrink(case, fails):
         c = shrinkers.shrink_list_field(c, 'ops', fails)
         c = shrinkers.shrink_hex_field(c, 'stream', fails)
         c = shrinkers.shrink_list_field(c, 'deliveries', fails)
+        c = shrinkers.shrink_list_field(c, 'recv_errors', fails)
         for simple in ({'tick': 0.0}, {'recv_split': [0]}, {'recv_split': [1]}, {'close_gap': 0.0},
                        {'recvsize': None}, {'maxsize': 32768}):
             c = shrinkers.try_set(c, simple, fails)
@@ -805,6 +847,7 @@ def shrink(case, fails):
     elif c['mode'] == 'send':
         c = shrinkers.shrink_list_field(c, 'ops', fails)
         c = shrinkers.shrink_list_field(c, 'drains', fails)
+        c = shrinkers.shrink_list_field(c, 'send_errors', fails)
         for simple in ({'tick': 0.0}, {'send_split': [0]}, {'send_split': [1]}, {'sndbuf': 1 << 30}):
             c = shrinkers.try_set(c, simple, fails)
         c = shrinkers.zero_gaps(c, 'drains', fails)
